@@ -1042,6 +1042,9 @@ func (h *runner) linear(limit, g int, reg uint64) {
 		mu.Unlock()
 		return false, nil
 	}
+	c.Begin("linearSearch.Process must offer exactly the decrements below the limit without crashing",
+		"pkg/bootflow/subsystems/trustchains/tpm/pcrbruteforcer/reproduce_expected_pcr0.go: linearSearch.Process",
+		map[string]interface{}{"limit": limit, "GOMAXPROCS": g, "register": fmt.Sprintf("0x%x", reg)})
 	prev := runtime.GOMAXPROCS(g)
 	res, err := pcrbruteforcer.VerifLinearSearch(limit, nil, init, check)
 	runtime.GOMAXPROCS(prev)
@@ -1115,6 +1118,9 @@ func (h *runner) linearHit(limit, g int, reg uint64, accept []uint64) {
 	check := func(_ any, data []byte) (bool, error) {
 		return acc[reg-binary.LittleEndian.Uint64(data)], nil
 	}
+	c.Begin("linearSearch.Process must return an accepted decrement below the limit without crashing",
+		"pkg/bootflow/subsystems/trustchains/tpm/pcrbruteforcer/reproduce_expected_pcr0.go: linearSearch.Process",
+		map[string]interface{}{"limit": limit, "GOMAXPROCS": g, "register": fmt.Sprintf("0x%x", reg), "accepted_decrements": accept})
 	prev := runtime.GOMAXPROCS(g)
 	res, err := pcrbruteforcer.VerifLinearSearch(limit, nil, init, check)
 	runtime.GOMAXPROCS(prev)
